@@ -44,6 +44,7 @@ struct Rng {
     template <class T> const T &pick(const std::vector<T> &v) { return v[below((uint32_t)v.size())]; }
 };
 void fill_bytes(uint8_t *p, size_t n, uint64_t seed, uint64_t tag);
+extern std::vector<uint32_t> g_dict;   // 32-bit constants found in the library objects built from the tree (build.sh: dict.txt)
 
 // ---------------------------------------------------------------- plan
 enum OpKind : int {
